@@ -294,6 +294,14 @@ def item_loop(ctx):
     ctx.ob(ok, u, 'otherwise the item\'s result becomes the running result', '' if ok else '%s holds %s at the end of an iteration' % (ret, env.get(ret)))
     cv = choice_values(cfg, cfg.node_of(lp), ret, 'type(self.spec) in (dict, list)', entry_only=True) if ret else None
     ok = cv is not None and cv[0] == ['type(self.spec)()'] and cv[1] == ['None']
+    if not ok and ret:
+        # the spec's type read once into a local
+        for n in u.node.body:
+            if isinstance(n, ast.Assign) and is_name(n.targets[0]) and norm(n.value) == 'type(self.spec)' \
+                    and len([x for x in u.own_nodes() if isinstance(x, ast.Name) and x.id == n.targets[0].id and isinstance(x.ctx, ast.Store)]) == 1:
+                v = n.targets[0].id
+                cv = choice_values(cfg, cfg.node_of(lp), ret, '%s in (dict, list)' % v, entry_only=True)
+                ok = cv is not None and cv[0] == ['%s()' % v] and cv[1] == ['None']
     ctx.ob(ok, u, "an empty input yields an empty container of the spec's type")
     ctx.floor(6)
 
